@@ -13,7 +13,7 @@ use std::collections::BTreeMap;
 pub static DEF: PropDef = PropDef {
     id: "C09",
     level: "exploration",
-    rule: "sample: structured random plaintexts (2..64 KiB, text-like and mixed) x compressor grid, stratified per \
+    rule: "sample: structured random plaintexts (2..160 KiB: text-like, mixed, runs, archive-like with stored blobs) x compressor grid, stratified per \
 family: zlib (levels 0-9 x 5 strategies x windowBits 9-15 x memLevel 1-9), zlib-ng 1-9, libdeflate 0-12, miniz_oxide 0-10. \
 Oracle (aggregate, differential against the frozen reference build linked into the same process), per family: \
 accepted_current >= 0.99 x accepted_reference and, over the streams both accept, sum |corrections_current| <= 1.03 x \
@@ -89,10 +89,11 @@ fn eval_one(d: &[u8], desc: &str, fam: &mut Fam, ctx: &mut Ctx) {
 }
 
 fn gen_case(dna: &mut Dna, family: &Family) -> (Vec<u8>, String) {
-    let size = match dna.weighted(&[40, 40, 20]) {
+    let size = match dna.weighted(&[38, 38, 16, 8]) {
         0 => dna.range(2 * 1024, 8 * 1024),
         1 => dna.range(8 * 1024, 32 * 1024),
-        _ => dna.range(32 * 1024, 64 * 1024),
+        2 => dna.range(32 * 1024, 64 * 1024),
+        _ => dna.range(64 * 1024, 160 * 1024),
     };
     let plain = gen_plain_sized(dna, size);
     let (d, desc) = gen_comp_family(dna, &plain, family);
